@@ -213,6 +213,11 @@ func (d *driver) browse(st *Step) {
 	next := Step{Op: "check", B: st.B, F: f.Name, Kind: "app", Cookie: "jar", URL: st.URL, Ans: st.Ans}
 	visits, hops, outcome := 0, 0, "gaveUp"
 	for hops = 0; hops < max; hops++ {
+		// the replica that serves this hop: the one named by the step, or (r < 0) a different one at every hop, as a load balancer may do
+		next.R = st.R
+		if st.R < 0 {
+			next.R = hops
+		}
 		c := d.start(&next)
 		d.finish(c)
 		if c.resp == nil {
